@@ -103,6 +103,12 @@ def gen_data(rng, fn, n=None):
     if fn == "pressure_increasing_test":
         # NaN is the only missing marker this test is given (it documents none)
         data["inp"]["carrier"] = rng.pick(("ndarray", "list_nan"))
+    if fn == "valid_range_test" and n and rng.chance(0.3):
+        # magnitudes at which "is this a number or an epoch time?" has different answers
+        for _ in range(rng.randint(1, 2)):
+            data["inp"]["values"][rng.randrange(n)] = rng.pick((1e10, 9.3e9, 1e20, -1e20, 1e19, 2.0**63))
+        if rng.chance(0.6):
+            data["inp"]["carrier"] = "list"
     if fn == "valid_range_test" and rng.chance(0.25):
         data["inp"] = {"carrier": "dt64_nat", "values": [None if rng.chance(0.15) else t for t in wl.gen_times(rng, n)]}
     return data
